@@ -9,12 +9,14 @@ use rosu_pp::{
     any::HitResultPriority,
     mania::{ManiaGradualPerformance, ManiaPerformance, ManiaScoreState},
     taiko::{Taiko, TaikoGradualPerformance, TaikoPerformance, TaikoScoreState},
+    osu::{verif as ov, Osu, OsuGradualPerformance, OsuPerformance, OsuScoreState},
     model::{hit_object::HitObjectKind, mode::GameMode},
     Beatmap, Difficulty,
 };
 
 use crate::{
-    common::{guarded, resource_maps, Run},
+    common::{decode, guarded, hash64, random_settings, resource_maps, truncate_objects, ModsSpec, Run, Settings},
+    mapgen::{random_map, GenCfg},
     rng::Rng,
     svops::hex,
 };
@@ -303,6 +305,160 @@ pub fn taiko_case(run: &mut Run, id: &str, bytes: &[u8], i: &TaikoInputs, rng: &
     run.eval(Some(id));
 }
 
+fn h32(x: f32) -> String {
+    format!("{:x}", x.to_bits())
+}
+
+fn h64(x: f64) -> String {
+    format!("{:x}", x.to_bits())
+}
+
+pub struct OsuInputs {
+    pub worst: bool,
+    pub acc: Option<f64>,
+    pub fields: [Option<u32>; 8],
+    pub gstate: [u32; 8],
+}
+
+fn osu_show(pre: &str, p: &rosu_pp::osu::OsuPerformanceAttributes) -> String {
+    format!(
+        "{pre}pp={} {pre}acc={} {pre}aim={} {pre}fl={} {pre}speed={} {pre}emc={} {pre}sd={} {pre}st={} {pre}mc={} {pre}ns={}",
+        showf(p.pp), showf(p.pp_acc), showf(p.pp_aim), showf(p.pp_flashlight), showf(p.pp_speed), showf(p.effective_miss_count),
+        p.speed_deviation.map_or_else(|| "none".to_owned(), showf), showf(p.difficulty.stars), p.difficulty.max_combo, p.difficulty.n_sliders
+    )
+}
+
+pub fn osu_case(run: &mut Run, id: &str, map: &Beatmap, settings: &Settings, passed: Option<u32>, i: &OsuInputs, rng: &mut Rng, repro: &str) {
+    if map.mode != GameMode::Osu {
+        return;
+    }
+    let base = settings.build(0);
+    let d = match passed {
+        Some(k) => base.clone().passed_objects(k),
+        None => base.clone(),
+    };
+    let (m2, d2) = (map.clone(), d.clone());
+    let Ok(probe) = guarded(move || ov::conv_probe(&d2, &m2)) else { return };
+    let m2 = map.clone();
+    let Ok(sliders) = guarded(move || ov::slider_inputs(&m2, GameMode::Osu)) else { return };
+    let (m3, d3) = (map.clone(), d.clone());
+    let Ok(Ok(attrs)) = guarded(move || d3.calculate_for_mode::<Osu>(&m3)) else { return };
+    let n = probe.raw.len();
+    if n != sliders.len() {
+        return;
+    }
+    let mut objs: Vec<String> = Vec::with_capacity(n);
+    for (o, sl) in probe.raw.iter().zip(sliders.iter()) {
+        match (o.kind, sl) {
+            (0, _) => objs.push(format!("c:{}:{}:{}", h32(o.pos.x), h32(o.pos.y), h64(o.start_time))),
+            (2, _) => objs.push(format!("p:{}:{}:{}:{}", h32(o.pos.x), h32(o.pos.y), h64(o.start_time), h64(o.duration))),
+            (1, Some(si)) => {
+                let ns = if o.nested.is_empty() {
+                    "-".to_owned()
+                } else {
+                    o.nested.iter().map(|q| format!("{},{}", h32(q.pos.x), h32(q.pos.y))).collect::<Vec<_>>().join("/")
+                };
+                objs.push(format!(
+                    "s:{}:{}:{}:{}:{}:{}:{}:{}:{}:{}:{}",
+                    h32(o.pos.x), h32(o.pos.y), si.start_time.to_bits(), si.beat_len.to_bits(), si.slider_velocity.to_bits(),
+                    u8::from(si.generate_ticks), si.dist.to_bits(), si.span_count, h32(o.lazy_end_pos.x), h32(o.lazy_end_pos.y), ns
+                ));
+            }
+            _ => return,
+        }
+    }
+    let snap = rosu_pp::verif::mods_snapshot(&settings.mods.build(0));
+    let lazer = rosu_pp::verif::difficulty_getters(&d).lazer;
+    let nsha = if lazer { snap.no_slider_head_acc_lazer } else { snap.no_slider_head_acc_stable };
+    let bit = |b: bool| if b { '1' } else { '0' };
+    // td rx ap fl hd
+    let flags: String = [snap.flags[2], snap.flags[5], snap.flags[8], snap.flags[6], snap.flags[3]].iter().map(|b| bit(*b)).collect();
+    // nf so bl tc lazer nsha
+    let extra: String = [snap.flags[0], snap.flags[7], snap.flags[9], snap.flags[13], lazer, nsha].iter().map(|b| bit(*b)).collect();
+    let prio = if i.worst { HitResultPriority::WorstCase } else { HitResultPriority::BestCase };
+    let build = |map: &Beatmap| {
+        let mut p = OsuPerformance::from(map.clone()).difficulty(d.clone()).hitresult_priority(prio);
+        if let Some(a) = i.acc {
+            p = p.accuracy(a);
+        }
+        let f = i.fields;
+        if let Some(v) = f[0] { p = p.combo(v); }
+        if let Some(v) = f[1] { p = p.large_tick_hits(v); }
+        if let Some(v) = f[2] { p = p.small_tick_hits(v); }
+        if let Some(v) = f[3] { p = p.slider_end_hits(v); }
+        if let Some(v) = f[4] { p = p.n300(v); }
+        if let Some(v) = f[5] { p = p.n100(v); }
+        if let Some(v) = f[6] { p = p.n50(v); }
+        if let Some(v) = f[7] { p = p.misses(v); }
+        p
+    };
+    let one = match guarded(|| build(map).calculate()) {
+        Ok(Ok(p)) => {
+            // `attrs.max_combo - n_slider_ends_dropped` underflow for inconsistent provided slider ends cannot
+            // happen here (generate_state clamps), so every line is compared
+            osu_show("", &p)
+        }
+        Ok(Err(_)) => return,
+        Err(_) => "GSPANIC".to_owned(),
+    };
+    let mut gidx: Vec<usize> = Vec::new();
+    let mut g = String::new();
+    if passed.is_none() && n > 0 {
+        gidx = vec![1, n, 1 + rng.below(n as u64) as usize];
+        gidx.sort_unstable();
+        gidx.dedup();
+        let s = i.gstate;
+        let state = OsuScoreState {
+            max_combo: s[0], large_tick_hits: s[1], small_tick_hits: s[2], slider_end_hits: s[3], n300: s[4], n100: s[5], n50: s[6], misses: s[7],
+        };
+        for k in &gidx {
+            let (m2, st, k2, d2) = (map.clone(), state.clone(), *k, base.clone());
+            let v = guarded(move || OsuGradualPerformance::new(d2, &m2).ok().and_then(|mut gp| gp.nth(st, k2 - 1)));
+            match v {
+                Ok(Some(p)) => g.push_str(&format!(" {}", osu_show(&format!("g{k}."), &p))),
+                Ok(None) => g.push_str(&format!(" g{k}=none")),
+                Err(_) => g.push_str(&format!(" g{k}.GSPANIC")),
+            }
+        }
+    }
+    let take = probe.take;
+    run.count("lines:PIPEP-osu");
+    run.count(&format!("PIPEP-osu:lazer={} nsha={}", u8::from(lazer), u8::from(nsha)));
+    run.count(&format!("PIPEP-osu:objects:{}", match n { 0 => "0", 1..=10 => "1-10", _ => ">10" }));
+    run.repro.insert(id.to_owned(), repro.to_owned());
+    let f: Vec<String> = i.fields.iter().map(|x| opt(*x)).collect();
+    let gs: Vec<String> = i.gstate.iter().map(u32::to_string).collect();
+    run.line(
+        id,
+        format!(
+            "PIPEP osu {extra} {} {} {} {} {} {} {} {} {} {} {} {} {} {} {} {} {} {} {} {} {}",
+            if i.worst { "W" } else { "B" },
+            i.acc.map_or("-".to_owned(), |a| format!("{:016x}", stored_acc(a).to_bits())),
+            f.join(" "),
+            gs.join(","),
+            map.version,
+            map.slider_multiplier.to_bits(),
+            map.slider_tick_rate.to_bits(),
+            probe.reflection,
+            h64(probe.cs),
+            h64(probe.ar_window),
+            h64(attrs.ar),
+            h64(attrs.hp),
+            h64(attrs.great_hit_window),
+            h64(attrs.ok_hit_window),
+            h64(attrs.meh_hit_window),
+            h64(probe.clock_rate),
+            h64(f64::from(map.stack_leniency)),
+            flags,
+            if take == usize::MAX { "-".to_owned() } else { take.to_string() },
+            if gidx.is_empty() { "-".to_owned() } else { gidx.iter().map(|k| k.to_string()).collect::<Vec<_>>().join(",") },
+            if objs.is_empty() { "-".to_owned() } else { objs.join(";") }
+        ),
+        format!("{one}{g}"),
+    );
+    run.eval(Some(id));
+}
+
 fn pick_count(rng: &mut Rng, n: u32) -> u32 {
     match rng.below(8) {
         0 => 0,
@@ -412,6 +568,69 @@ pub fn run(run: &mut Run, tier: &str, seed: u64, only: Option<&str>) {
                 gstate: [0; 4].map(|_| pick_count(&mut rng, n_lines / 2 + 1)),
             };
             taiko_case(run, &format!("{id}#{v}"), &bytes, &inp, &mut rng);
+        }
+    }
+    // --- osu!standard from decoded objects
+    let n_osu = if thorough { 4000 } else { 450 };
+    for ci in 0..n_osu {
+        let id = format!("pipep-osu-{ci}");
+        if only.is_some_and(|o| o != id) {
+            continue;
+        }
+        let mut rng = Rng::new(seed ^ hash64(&id));
+        let mut cfg = GenCfg::small(0);
+        cfg.max_objects = *rng.pick(&[0, 1, 2, 3, 6, 12, 24, 50]);
+        cfg.weights = *rng.pick(&[[10, 0, 0, 0], [10, 6, 2, 1], [3, 10, 1, 0], [6, 6, 6, 0]]);
+        cfg.max_slides = *rng.pick(&[1, 2, 5]);
+        cfg.dense = rng.chance(1, 3);
+        let mut spec = random_map(&mut rng, &cfg);
+        spec.version = *rng.pick(&[14, 14, 128, 9, 7, 5]);
+        let text = spec.render();
+        let Ok(map) = decode(&text) else { continue };
+        let settings = if rng.chance(1, 4) { Settings::default() } else { random_settings(&mut rng, 0) };
+        let len = map.hit_objects.len() as u32;
+        let passed = match rng.below(3) {
+            0 | 1 => None,
+            _ => Some(rng.below(u64::from(len) + 3) as u32),
+        };
+        let mut fields = [None; 8];
+        for f in fields.iter_mut() {
+            if rng.chance(1, 3) {
+                *f = Some(pick_count(&mut rng, len * 2));
+            }
+        }
+        let inp = OsuInputs {
+            worst: rng.chance(1, 2),
+            acc: match rng.below(4) {
+                0 => None,
+                1 => Some(*rng.pick(&[0.0, 100.0, 50.0, 99.99, 250.0, -1.0])),
+                _ => Some((rng.unit() * 10000.0).round() / 100.0),
+            },
+            fields,
+            gstate: [0; 8].map(|_| pick_count(&mut rng, len + 1)),
+        };
+        let repro = format!("{text}\n# settings: {} passed_objects: {passed:?} acc {:?} fields {:?} gstate {:?}", settings.describe(), inp.acc, inp.fields, inp.gstate);
+        osu_case(run, &id, &map, &settings, passed, &inp, &mut rng, &repro);
+    }
+    for (ri, (mode, text)) in resource_maps().into_iter().enumerate() {
+        if mode != 0 {
+            continue;
+        }
+        let Ok(map) = decode(&truncate_objects(&text, 120)) else { continue };
+        for (j, bits) in [0u32, 16 + 8, 64, 2 + 256, 1024 + 1, 4096, 128].into_iter().enumerate() {
+            let id = format!("pipep-osu-res-{ri}-{j}");
+            if only.is_some_and(|o| o != id) {
+                continue;
+            }
+            let mut rng = Rng::new(seed ^ hash64(&id));
+            let settings = Settings { mods: ModsSpec::Bits(bits), lazer: Some(j % 2 == 0), ..Settings::default() };
+            let inp = OsuInputs {
+                worst: j % 2 == 1,
+                acc: Some(*rng.pick(&[97.5, 99.0, 88.8])),
+                fields: [None, None, None, None, None, None, None, Some(j as u32)],
+                gstate: [100, 5, 0, 20, 90, 8, 1, 2],
+            };
+            osu_case(run, &id, &map, &settings, if j == 3 { Some(60) } else { None }, &inp, &mut rng, &format!("resource map {ri} first 120 objects mods {bits}"));
         }
     }
 }
